@@ -28,6 +28,7 @@ Proof.
   - cbn [action_dom] in Hp. subst multiprefix. apply step_names; assumption.
   - apply step_who. exact I.
   - apply step_reset; assumption.
+  - apply step_isupport. exact I.
 Qed.
 Lemma trace_inv : forall acts s b, Inv s b -> skeys s -> dom acts = true ->
   all_agree nick0 prefix0 true uh s b acts = true.
